@@ -527,7 +527,7 @@ class ThresholdOptimizer(MetaEstimatorMixin, BaseEstimator):
         n = len(labels)
 
         if isinstance(labels, pd.DataFrame):
-            n_positive = labels.sum().loc[0]
+            n_positive = labels.sum().iloc[0]
         else:
             n_positive = sum(labels)
         n_negative = n - n_positive
